@@ -8,9 +8,11 @@
       pattern ::= '^'? item* '$'?        item ::= atom | atom '*' | atom '+'
       atom    ::= letter | digit | ':' | '-' | '.' (any char) | '\d'
 
-  with the unanchored-search semantics of `Regex::is_match`.  A pattern that begins with a
-  repetition operator is the designated *invalid* pattern (`Regex::new` fails on it); anything
-  else outside the fragment makes the case ill-formed (`(bad-case)` on both sides).
+  with the unanchored-search semantics of `Regex::is_match`.  Two forms are the designated
+  *invalid* patterns (`Regex::new` fails on them): one that begins with a repetition operator,
+  and one with a single, never closed `[` somewhere between items of the fragment (this form
+  stays invalid when `parse_community` wraps it in `^…$`).  Anything else outside the fragment
+  makes the case ill-formed (`(bad-case)` on both sides).
 -/
 import Rbgp.Policy.Basic
 namespace Rbgp.Policy.Regex
@@ -46,12 +48,25 @@ def parseGo : List Char → List Item → Option (List Item × Bool)
   | '.' :: r, acc => parseGo r (.one .any :: acc)
   | c :: r, acc => if litOk c then parseGo r (.one (.ch c) :: acc) else none
 
+/-- `a [ b` with `a`, `b` item sequences of the fragment (`b` may end in `$`): an unclosed character class -/
+def unclosedGroup (cs : List Char) : Bool :=
+  match cs.span (· != '[') with
+  | (a, '[' :: b) =>
+      (match parseGo a [] with | some (_, e) => !e | none => false) && (parseGo b []).isSome
+  | _ => false
+
 def classify (s : String) : Class :=
   match s.toList with
   | '*' :: r => if (parseGo r []).isSome then .invalid else .unsupported
   | '+' :: r => if (parseGo r []).isSome then .invalid else .unsupported
-  | '^' :: r => (match parseGo r [] with | some (is, e) => .ok ⟨true, is, e⟩ | none => .unsupported)
-  | cs => (match parseGo cs [] with | some (is, e) => .ok ⟨false, is, e⟩ | none => .unsupported)
+  | '^' :: r =>
+      (match parseGo r [] with
+       | some (is, e) => .ok ⟨true, is, e⟩
+       | none => if unclosedGroup r then .invalid else .unsupported)
+  | cs =>
+      (match parseGo cs [] with
+       | some (is, e) => .ok ⟨false, is, e⟩
+       | none => if unclosedGroup cs then .invalid else .unsupported)
 
 def atomOk : Atom → Char → Bool
   | .ch c, x => c == x
@@ -77,8 +92,27 @@ def searchFrom (items : List Item) (eol : Bool) : List Char → Bool
 def Re.isMatch (r : Re) (s : String) : Bool :=
   if r.bol then matchHere r.items r.eol s.toList else searchFrom r.items r.eol s.toList
 
-/-- `ext_community_to_string`; the link-bandwidth form (0x40,0x04) prints an `f32` and is
-    excluded from well-formed cases -/
+/-- the `f32` with these bits, if it is a whole number below 2^24 (`Display` of such a float is
+    the plain decimal number: every shorter digit string denotes another integer, at least one
+    away, while the rounding interval is at most one wide) -/
+def f32Whole? (bits : Nat) : Option Nat :=
+  let e := bits / 8388608
+  let m := bits % 8388608
+  if bits = 0 then some 0
+  else if 127 ≤ e ∧ e ≤ 150 then
+    let sig := 8388608 + m
+    let sh := 150 - e
+    if sig % 2 ^ sh = 0 then some (sig / 2 ^ sh) else none
+  else none
+
+/-- link-bandwidth communities the driver can render -/
+def lbOk (c : Bytes) : Bool :=
+  match c with
+  | [64, 4, _, _, b4, b5, b6, b7] => (f32Whole? (b4 * 16777216 + b5 * 65536 + b6 * 256 + b7)).isSome
+  | _ => true
+
+/-- `ext_community_to_string`; the link-bandwidth form (0x40,0x04) prints an `f32`: well-formed
+    cases carry only whole-number bandwidths below 2^24 (`lbOk`) -/
 def extStr : Bytes → Option String
   | [t, s, b2, b3, b4, b5, b6, b7] =>
       let pre := if s = 2 then "rt" else "soo"
@@ -89,7 +123,10 @@ def extStr : Bytes → Option String
       else if t = 1 ∧ (s = 2 ∨ s = 3) then
         some s!"{pre}:{b2}.{b3}.{b4}.{b5}:{b6 * 256 + b7}"
       else if t = 3 ∧ s = 12 then some s!"encap:{b6 * 256 + b7}"
-      else if t = 64 ∧ s = 4 then some s!"lb:{b2 * 256 + b3}:?"
+      else if t = 64 ∧ s = 4 then
+        (match f32Whole? (b4 * 16777216 + b5 * 65536 + b6 * 256 + b7) with
+         | some n => some s!"lb:{b2 * 256 + b3}:{n}"
+         | none => some s!"lb:{b2 * 256 + b3}:?")
       else if t = 67 ∧ s = 0 then
         (if b7 = 0 then some "validation:valid" else if b7 = 1 then some "validation:not-found"
          else if b7 = 2 then some "validation:invalid" else none)
